@@ -43,7 +43,8 @@ def carriers_rule(rep, prog, oks):
     for _sig, (key, l, start, plabel) in sorted(seen.items(), key=lambda kv: (kv[1][0], kv[1][3])):
         rep.instance(r1, key, sample={"carrier": key, "slice": rng_str(l.atoms)})
         want = frozenset(range(start, start + 13))
-        if l.atoms != want:
+        # the X position (7th bit) carries no information; a decoder that never looks at it reads the same code
+        if l.atoms != want and l.atoms != want - {start + 6}:
             rep.violation("R1", "%s:slice=%s" % (key, rng_str(l.atoms)), "%s reads the identity code from %s, expected %s" % (key, rng_str(l.atoms), rng_str(want)))
             continue
         v = l.value
